@@ -110,6 +110,11 @@ inductive E (K : Type) where
   | sqrt (a : E K)
   /-- `y.arctan2(x)` -/
   | atan2 (y x : E K)
+  /-- `x.sign().mask_where_eq(0, 1, remask=False)` (vector.py:529, scalar.py:703-740): -1 or +1, carries no
+      derivatives -/
+  | sgn (a : E K)
+  /-- `(sign < 0.)` used as a number (vector.py:533): 1 where negative, else 0; no derivatives -/
+  | isneg (a : E K)
   deriving Inhabited
 
 namespace E
@@ -143,6 +148,8 @@ def val : E K → (Nat → K) → K
   | log a, env => Num.log (a.val env)
   | sqrt a, env => Num.sqrt (a.val env)
   | atan2 y x, env => Num.atan2 (y.val env) (x.val env)
+  | sgn a, env => if lt (a.val env) zero then ofInt (-1) else one
+  | isneg a, env => if lt (a.val env) zero then one else zero
 
 /-- the derivative polymath attaches for the key, formula by formula -/
 def der : E K → (Nat → K) → (Nat → Option K) → Option K
@@ -183,13 +190,15 @@ def der : E K → (Nat → K) → (Nat → Option K) → Option K
   | acos a, env, denv => dFac (-(one / Num.sqrt (one - a.val env * a.val env))) (a.der env denv)
   -- scalar.py:500-504: `1. / (1. + self.wod**2)`
   | atan a, env, denv => dFac (one / (one + a.val env * a.val env)) (a.der env denv)
-  -- scalar.py:658-661: `deriv * exp_values`
-  | exp a, env, denv => dFacR (Num.exp (a.val env)) (a.der env denv)
+  -- scalar.py:698-701: `factor * deriv` with `factor = Scalar(exp_values, …)`
+  | exp a, env, denv => dFac (Num.exp (a.val env)) (a.der env denv)
   -- scalar.py:624-627: `deriv / no_negs`
   | log a, env, denv => (a.der env denv).map fun x => x / a.val env
   -- scalar.py:591-595: `factor = 0.5 / obj` (computed as `obj.reciprocal() * 0.5`)
   | sqrt a, env, denv => dFac (one / Num.sqrt (a.val env) * half) (a.der env denv)
   | atan2 y x, env, denv => dAtan2 (y.val env) (y.der env denv) (x.val env) (x.der env denv)
+  | sgn _, _, _ => none
+  | isneg _, _, _ => none
 
 /-- "value and derivative are left unmasked": every operand element used is unmasked and no
     operation on the way masks its result or the derivative it attaches.
@@ -226,14 +235,18 @@ def ok : E K → (Nat → K) → (Nat → Bool) → Bool
   | log a, env, um => a.ok env um && lt zero (a.val env)
   | sqrt a, env, um => a.ok env um && lt zero (a.val env)
   | atan2 y x, env, um => y.ok env um && x.ok env um && (lt zero (x.val env) || nz (y.val env))
+  | sgn a, env, um => a.ok env um && nz (a.val env)
+  | isneg a, env, um => a.ok env um && nz (a.val env)
 
-/-- the operand elements an expression mentions -/
+/-- the operand elements whose derivatives reach the result -/
 def vars : E K → List Nat
   | var i => [i]
   | lit _ => []
   | add a b | sub a b | mul a b | div a b | atan2 a b => a.vars ++ b.vars
   | neg a | abs a | scale _ a | divn a _ | recip a | pow0 a | pow2 a | pow3 a | pow4 a | powi _ a
   | powg _ a | sin a | cos a | tan a | asin a | acos a | atan a | exp a | log a | sqrt a => a.vars
+  -- `sign()` returns an object without derivatives: nothing below it reaches the result's key set
+  | sgn _ | isneg _ => []
 
 end E
 
@@ -506,6 +519,72 @@ def ucross (a b : Val K) : Val K := unit (cross3 a b)
 def withNorm (a n : Val K) : Val K := smul a (sc2 (.div (.var 0) (.var 1)) n (norm a))
 /-- quaternion.py:673-686 `conj / norm_sq` -/
 def qrecip (a : Val K) : Val K := sdiv (qconj a) (normSq a)
+
+/-- `Quaternion.from_rotation` (quaternion.py:130-146): `from_parts(cos(a/2), (sin(a/2)/|v|) * v)` -/
+def fromRotation (a v : Val K) : Val K :=
+  let h := nscale half a
+  cat (sc1 (.cos (.var 0)) h) (smul v (sdiv (sc1 (.sin (.var 0)) h) (norm v)))
+
+/-- `Quaternion.to_rotation` (quaternion.py:149-157): angle `2 * |vec|.arctan2(scalar)` -/
+def toRotation0 (q : Val K) : Val K :=
+  nscale two (sc2 (.atan2 (.var 0) (.var 1)) (norm (slice 1 4 q)) (comp 0 q))
+/-- … and axis `vec / |vec|` -/
+def toRotation1 (q : Val K) : Val K := sdiv (slice 1 4 q) (norm (slice 1 4 q))
+
+/-- `Vector.sep` (vector.py:506-535): `sign = a.dot(b).sign()` with zeros replaced by 1 (no derivatives);
+    `b *= sign`; `arg = 0.5 * (a - b).norm()`; `2.*sign*arg.arcsin() + (sign < 0.)*pi` -/
+def sep (a b : Val K) : Val K :=
+  let ua := unit a
+  let ub := unit b
+  let sg := sc1 (.sgn (.var 0)) (dot ua ub)
+  let b' := smul ub sg
+  let arg := nscale half (norm (sub ua b'))
+  add (smul (nscale two sg) (sc1 (.asin (.var 0)) arg)) (nscale pi (sc1 (.isneg (.var 0)) sg))
+
+/-- `Matrix3.twovec` (matrix3.py:60-133): rows `unit1`, `unit2`, `unit3` placed at `axis1`, `axis2`, the
+    remaining axis; the derivative rows are the rows' derivatives, zeros where a row lacks the key -/
+def twovec (axis1 axis2 : Nat) (v1 v2 : Val K) : Val K :=
+  let u1 := unit v1
+  let (u2, u3) :=
+    if (3 + axis2 - axis1) % 3 = 1 then
+      let u3 := ucross u1 v2
+      (ucross u3 u1, u3)
+    else
+      let u3 := ucross v2 u1
+      (ucross u1 u3, u3)
+  let row := fun i : Nat => if i = axis1 then u1 else if i = axis2 then u2 else u3
+  cat (cat (row 0) (row 1)) (row 2)
+
+/-- `Quaternion.to_matrix3` (quaternion.py:183-321): `q = sqrt(2)/|p| * p`; the nine quadratic entries;
+    derivative `dm_dq.chain(dq_dp) * (-sqrt(2)/|p|**3)` chained with the quaternion's derivative, with the
+    `m` (3×3×4) and `dq_dp` (4×4) tables as the source fills them; `|p| = 0` is masked -/
+def toMatrix3 (a : Val K) : Val K :=
+  match a.v with
+  | [p0, p1, p2, p3] =>
+    let pn := Num.sqrt (sumL [p0 * p0, p1 * p1, p2 * p2, p3 * p3])
+    let c := Num.sqrt two / pn
+    let s := c * p0
+    let x := c * p1
+    let y := c * p2
+    let z := c * p3
+    let vals := [one - (y * y + z * z), x * y - s * z, x * z + s * y,
+                 x * y + s * z, one - (x * x + z * z), y * z - s * x,
+                 x * z - s * y, y * z + s * x, one - (x * x + y * y)]
+    let o : K := zero
+    let m2 : K := ofInt (-2)
+    let m : List (List K) :=
+      [[o, o, m2 * y, m2 * z], [-z, y, x, -s], [y, z, s, x],
+       [z, y, x, s], [o, m2 * x, o, m2 * z], [-x, -s, z, y],
+       [-y, z, -s, x], [x, s, z, y], [o, m2 * x, m2 * y, o]]
+    let dqdp : List (List K) :=
+      [[-(p1 * p1 + p2 * p2 + p3 * p3), p0 * p1, p0 * p2, p0 * p3],
+       [p0 * p1, -(p0 * p0 + p2 * p2 + p3 * p3), p1 * p2, p1 * p3],
+       [p0 * p2, p1 * p2, -(p0 * p0 + p1 * p1 + p3 * p3), p2 * p3],
+       [p0 * p3, p1 * p3, p2 * p3, -(p0 * p0 + p1 * p1 + p2 * p2)]]
+    let f := -(Num.sqrt two) / (pn * pn * pn)
+    let dmdp := m.map fun row => (List.range 4).map fun l => dotV row (dqdp.map fun r => r.getD l zero) * f
+    ⟨vals, a.d.map (fun dp => dmdp.map fun row => dotV row dp), a.ok && nz pn⟩
+  | _ => ⟨[], none, false⟩
 
 end Val
 
